@@ -1,5 +1,6 @@
 import SccacheModel.Proofs.TimeMacro
 import SccacheModel.Model.Manifest
+import SccacheModel.Proofs.Recorder
 
 /-! # C04 — preprocessor-cache (direct) mode never returns a result for changed inputs
 
@@ -9,7 +10,11 @@ Two cores carry the logic:
   texts × generated read splits) + `modeld finder`.
 * `ManifestM.resultMatches` (`Model/Manifest.lean`) — `PreprocessorCacheEntry::result_matches` with `add_result`'s
   recording rule. Tie: `h_c04 manifest` (real entry on real files whose contents, sizes and mtimes are edited) +
-  `modeld manifest`. -/
+  `modeld manifest`.
+* `RecM.processPreprocessedFile` (`Model/Recorder.lean`) — `process_preprocessed_file`, `process_preprocessor_line`,
+  `remember_include_file`, `normalize_path` (the include recorder that decides *which* files enter the manifest and
+  whether direct mode stays on). Tie: `h_recorder` (the real recorder through hook H2 on generated line-marker
+  texts over a real directory tree) + `modeld recorder`. -/
 
 namespace C04
 open TM ManifestM
@@ -80,5 +85,68 @@ theorem date_header_witness :
     let cfg : Cfg := ⟨false, true, false⟩
     let fs1 : FS := fun p => if p = 0 then some ⟨77, 5, 1, 1, true, false, false⟩ else none
     resultMatches cfg fs1 [⟨0, 10, 5, none, none⟩] = true := ManifestM.date_header_witness
+
+
+end C04
+
+/-! ## the include recorder -/
+namespace C04
+open RecM
+
+/-- `recorder_sound`: for **every** well-formed preprocessor output (any number of lines; line markers `hd "path" flags`
+    mixed with arbitrary other lines), every option combination and every file system: if the recorder leaves direct
+    mode enabled, the file named by each line marker is among the recorded include files (under the key
+    `cwd.join(normalised path)`), or is excluded for one of the four documented reasons — a `<pseudo>` name, a system
+    header while `skip_system_headers` is set, the input file itself, a directory. -/
+theorem recorder_sound (cfg : RecM.Cfg) (fs : Bytes → FileKind) (cwd input : Bytes) (ls : List Line) (hwf : WF [] ls) (rec : List Bytes)
+    (h : processPreprocessedFile cfg fs cwd input (textOf ls) = .ok true rec) :
+    ∀ hd path flags, Line.marker hd path flags ∈ ls → path ≠ [] → Covered cfg fs cwd input rec path flags :=
+  RecM.recorder_sound cfg fs cwd input ls hwf rec h
+
+/-- non-vacuity of `recorder_sound`: a well-formed three-line text on which direct mode stays on and both headers —
+    one of them reached through `../` — are recorded -/
+theorem recorder_sound_nonvacuous : WF [] exLines ∧
+    processPreprocessedFile ⟨true, false⟩ (fsOf exWorld) (sb [47, 112, 47, 115]) (sb [47, 112, 47, 115, 47, 109, 46, 99]) (textOf exLines)
+      = .ok true [sb [47, 112, 47, 115, 47, 97, 46, 104], sb [47, 112, 47, 115, 47, 46, 46, 47, 105, 47, 98, 46, 104]] :=
+  ⟨exLines_wf, exLines_result⟩
+
+/-- what the recorder does on one well-formed marker line: the bytes between the first two quotes, normalised, go to
+    `remember_include_file`, with `system` = "a `3` occurs after the closing quote" — never anything read from the path itself -/
+theorem marker_line_handling (cfg : RecM.Cfg) (fs : Bytes → FileKind) (cwd input : Bytes) (pre hd path flags post : Bytes) (known : List Bytes) (hs : Nat)
+    (hhd : ∀ b ∈ hd, b ≠ bQuote ∧ b ≠ bNl) (hpath : ∀ b ∈ path, b ≠ bQuote) (hpne : path ≠ []) (hflags : ∀ b ∈ flags, b ≠ bNl)
+    (h31 : startsAt (pre ++ markerLine hd path flags ++ post) pre.length hash31 = false)
+    (h32 : startsAt (pre ++ markerLine hd path flags ++ post) pre.length hash32 = false) :
+    processLine cfg fs cwd input (pre ++ markerLine hd path flags ++ post) known pre.length hs =
+      (let q := pre.length + hd.length + 1 + path.length
+       match remember cfg fs cwd input known (normalizedText path) (flags.contains b3) with
+       | .disable => .brk q (pre.length + hd.length + 1) false (pre ++ markerLine hd path flags ++ post) known
+       | .ok none => .cont q q (pre ++ markerLine hd path flags ++ post) known
+       | .ok (some p) => .cont q q (pre ++ markerLine hd path flags ++ post) (known ++ [p])) :=
+  RecM.processLine_marker cfg fs cwd input pre hd path flags post known hs hhd hpath hpne hflags h31 h32
+
+/-- a regular, old-enough, readable, not yet known user header is recorded -/
+theorem remember_records (cfg : RecM.Cfg) (fs : Bytes → FileKind) (cwd input : Bytes) (known : List Bytes) (path : Bytes) (system : Bool)
+    (hpseudo : ¬ (path.length ≥ 2 ∧ path.head? = some 60 ∧ path.getLast? = some 62))
+    (hsys : ¬ (system = true ∧ cfg.skipSystemHeaders = true))
+    (hknown : known.contains (fullPath cwd (stripDot path)) = false)
+    (hinput : fullPath cwd (stripDot path) ≠ fullPath cwd input)
+    (hslash : (stripDot path).getLast? ≠ some bSlash)
+    (ht : Bool) (hfs : fs (fullPath cwd (stripDot path)) = .file false false ht)
+    (htime : ht = false ∨ cfg.ignoreTimeMacros = true) :
+    remember cfg fs cwd input known path system = .ok (some (fullPath cwd (stripDot path))) :=
+  RecM.remember_records cfg fs cwd input known path system hpseudo hsys hknown hinput hslash ht hfs htime
+
+/-- a path without `..` (and without a leading `.`) is recorded under exactly the spelling the preprocessor used -/
+theorem normalizedText_plain (raw : Bytes) (h : ∀ c ∈ rustComps raw, c ≠ dotdot ∧ c ≠ [bDot]) : normalizedText raw = raw :=
+  RecM.normalizedText_plain raw h
+
+/-- F-C04-c (pinned code, kernel-checked witness): `../inc/a.h` lost its leading `..` and was recorded as `<cwd>/inc/a.h` … -/
+theorem pinned_drops_leading_dotdot :
+    normalizedTextWith normStepPinned (sb [46, 46, 47, 105, 110, 99, 47, 97, 46, 104]) = sb [105, 110, 99, 47, 97, 46, 104] :=
+  RecM.pinned_drops_leading_dotdot
+/-- … repaired in /repo (`fix:` commit ce87ea6): the spelling is kept -/
+theorem fixed_keeps_leading_dotdot :
+    normalizedText (sb [46, 46, 47, 105, 110, 99, 47, 97, 46, 104]) = sb [46, 46, 47, 105, 110, 99, 47, 97, 46, 104] :=
+  RecM.fixed_keeps_leading_dotdot
 
 end C04
